@@ -124,7 +124,8 @@ fn expect(id: usize, name: &str, kind: usize) -> Vec<String> {
 
 fn names() -> Vec<String> {
     let mut n = vseq::strings(&["a", "b", ".", "A"], 4);
-    n.extend(["é".to_string(), "aé".to_string(), "p.a".to_string()]);
+    // names that share a byte-prefix / nibble-prefix with the route patterns without being covered by the longer ones
+    n.extend(["é".to_string(), "aé".to_string(), "p.a".to_string(), "c".to_string(), "ac".to_string(), "abd".to_string(), "bb".to_string(), "abcd".to_string(), "q".to_string(), "`".to_string(), "a`".to_string()]);
     n
 }
 
@@ -214,6 +215,7 @@ fn router_part(ctx: &Ctx, res: &mut PartResult, states: &mut vseq::States, max_r
         layer = next;
     }
     let short_names: Vec<String> = names().into_iter().filter(|n| n.chars().count() <= 3 || n.starts_with("ab")).collect();
+    // (radix_trie branches on nibbles: "c", "q", "`" share the high nibble of "a"/"b" and leave the trie below a value-less branch node)
     for (ti, table) in tables.iter().enumerate() {
         if ti % 64 == 0 && ctx.over_budget() {
             res.cap_hit = Some("wall budget".into());
